@@ -27,7 +27,7 @@ def run(ck):
         ck.mc("MCTokGrammar", cfg, workers=8, xmx="12g", timeout=1800)
     exe = vlib.build("san", vlib.harness_sources(), "vh")
     stride = 1 if thorough else 29
-    jobs = [("V:generated-valid-documents", ["tok", "valid-drive"], 3000 if thorough else 700),
+    jobs = [("V:generated-valid-documents", ["tok", "valid-drive"], 12000 if thorough else 700),
             ]
     for name, args, n in jobs:
         tp = os.path.join(ck.dir, "v-docs.ndjson")
